@@ -13,6 +13,9 @@ LEVEL_TEXT = ('Static membership-fact rules at the composition level: for the fo
 
 
 def run(ctx):
+    from ..persist import rule_P17
+    k17 = rule_P17(ctx, only={'Union', 'NautilusBound', 'Ellipsoid', 'UnitCubeEllipsoidMixture', 'NeuralBound', 'UnitCube', 'PhaseShift'})
+    ctx.require(k17 >= 30, 'P17 saw only %d stored values of the bound classes (floor 30)' % k17)
     from ..shape import rule_N4
     rule_N4(ctx)      # per-member membership tests are reduced over the members
     from ..persist import rule_P8
